@@ -135,10 +135,56 @@ let run_reqs (r : reader) (reqs : string list) : string =
 let geom_str fmt be ptr pgsz maxpfn =
   Printf.sprintf "G:%s:%d:%s:%s:%s" fmt (if be then 0 else 1) (hex_of_n ptr) (hex_of_n pgsz) (hex_of_n maxpfn)
 
+(* ---- ELF: segment file = u32 count, then per segment
+        u32 type, u32 flags, u64 phys, u64 virt, u64 memsz, u64 align, u32 gap, u32 datalen, data ---- *)
+let read_segs (p : string) : ElfSpec.elf_seg list =
+  let b = read_file p in
+  let u32 o = Char.code (Bytes.get b o) lor (Char.code (Bytes.get b (o+1)) lsl 8)
+              lor (Char.code (Bytes.get b (o+2)) lsl 16) lor (Char.code (Bytes.get b (o+3)) lsl 24) in
+  let u64 o = n_of_hex (String.concat "" (Stdlib.List.init 8 (fun i ->
+                Printf.sprintf "%02x" (Char.code (Bytes.get b (o + 7 - i)))))) in
+  let cnt = u32 0 in
+  let pos = ref 4 in
+  let out = ref [] in
+  for _ = 1 to cnt do
+    let o = !pos in
+    let dl = u32 (o + 44) in
+    out := { ElfSpec.sg_type = n_of_int (u32 o); sg_flags = n_of_int (u32 (o + 4));
+             sg_phys = u64 (o + 8); sg_virt = u64 (o + 16); sg_memsz = u64 (o + 24);
+             sg_align = u64 (o + 32); sg_gap = n_of_int (u32 (o + 40));
+             sg_data = list_of_sub b (o + 48) dl; sg_filesz = n_of_int dl } :: !out;
+    pos := o + 48 + dl
+  done;
+  Stdlib.List.rev !out
+
+let elf_layout (c : case) : ElfSpec.elf_layout =
+  { ElfSpec.el_be = lkb c "be"; el_64 = lkb c "w64"; el_machine = lkn c "machine";
+    el_osabi = lkn c "osabi"; el_flags = lkn c "eflags"; el_phoff_gap = lkn c "phgap";
+    el_phent_extra = lkn c "phextra" }
+
+let shift_of (pgsz : coq_N) : coq_N =
+  let rec go k = if (1 lsl k) >= int_of_n pgsz then k else go (k + 1) in n_of_int (go 0)
+
 let model_case (line : string) : string =
   let c = parse_case line in
   let files = Array.of_list (Stdlib.List.map read_file c.paths) in
   let rd = rd_of_files files in
+  match c.fmt with
+  | "elf" ->
+      (match ElfModel.elf_open rd (nat_of_int (Array.length files)) with
+       | Codec.Err st -> "OPEN" ^ status_str st
+       | Codec.Ok st0 ->
+           let pgsz = lkn c "pgsz" in
+           let st = ref st0 in
+           let r = { geom = Printf.sprintf "G:elf:%d:%s:%s:%s" (if st0.ElfModel.es_be then 0 else 1)
+                              (lk c "ptr") (hex_of_n pgsz) (hex_of_n (ElfModel.elf_max_pfn st0 (shift_of pgsz)));
+                     read = (fun z a addr len ->
+                       if a <> 'M' && a <> 'V' then (n_of_int 99, [])
+                       else begin
+                         let ((s, data), st') = ElfModel.elf_read rd pgsz z (a = 'V') !st addr len in
+                         st := st'; (s, data) end) } in
+           run_reqs r c.reqs)
+  | _ ->
   let (_, img) = read_image c.img in
   let dec = oracle_of img in
   match c.fmt with
@@ -155,6 +201,11 @@ let model_case (line : string) : string =
 
 let enc_case (line : string) : string =
   let c = parse_case line in
+  match c.fmt with
+  | "elf" ->
+      let out = ElfSpec.encode_elf (elf_layout c) (read_segs c.img) in
+      Printf.sprintf "ok %d" (write_file (Stdlib.List.hd c.paths) out)
+  | _ ->
   let (_, img) = read_image c.img in
   match c.fmt with
   | "dd" ->
@@ -167,6 +218,18 @@ let enc_case (line : string) : string =
 
 let spec_case (line : string) : string =
   let c = parse_case line in
+  match c.fmt with
+  | "elf" ->
+      let l = elf_layout c and segs = read_segs c.img in
+      let pg = lkn c "pgsz" in
+      let getp z virt () addr = (ElfSpec.spec_elf_page segs pg z virt addr, ()) in
+      let r = { geom = Printf.sprintf "G:elf:%d:%s:%s:%s" (if l.ElfSpec.el_be then 0 else 1) (lk c "ptr")
+                         (hex_of_n pg) (hex_of_n (ElfSpec.spec_elf_max_pfn segs pg));
+                read = (fun z a addr len ->
+                  if a <> 'M' && a <> 'V' then (n_of_int 99, [])
+                  else let ((st, data), ()) = Codec.read_range (getp z (a = 'V')) pg () addr len in (st, data)) } in
+      run_reqs r c.reqs
+  | _ ->
   let (pgsz, img) = read_image c.img in
   let simg = Stdlib.List.map (function Some p -> Some p.content | None -> None) img in
   match c.fmt with
